@@ -58,10 +58,12 @@ def materialise(folder, storage):
     paths["cid:rejected"] = os.path.join(folder, "cid_rejected" + suffix)
     write_table(paths["cid:rejected"], storage, cid_rows(storage, broken=True))
     paths["cid:missing"] = os.path.join(folder, "no_such_cid" + suffix)
+    # a named file is that file: names may hold characters that shells and glob patterns treat specially
+    spelled = {"fieldRejected": "field[1]Rejected", "dupRejected": "dup?Rejected (copy)", "shares": "shares*"}
     for kind, table in DATA.items():
-        paths[kind] = os.path.join(folder, kind + suffix)
+        paths[kind] = os.path.join(folder, spelled.get(kind, kind) + suffix)
         write_table(paths[kind], storage, table)
-    paths["missing"] = os.path.join(folder, "no_such_data" + suffix)
+    paths["missing"] = os.path.join(folder, "no_such_*_data" + suffix)
     paths["directory"] = os.path.join(folder, "a_directory" + suffix)
     os.makedirs(paths["directory"], exist_ok=True)
     return paths
